@@ -2,7 +2,6 @@ package main
 
 import (
 	"encoding/json"
-	"fmt"
 	"os"
 	"path/filepath"
 	"sort"
@@ -22,18 +21,7 @@ type seedMeta struct {
 // runOn runs a property's rules on a program and returns the failing,
 // not-known obligations keyed by rule|key.
 func runOn(id, tier string, prog *core.Program, verif string) (map[string]string, int) {
-	sub := core.NewCtx(id, tier, 0, prog, verif)
-	sub.Quiet = true
-	props.SetSubject(prog)
-	func() {
-		defer func() {
-			if r := recover(); r != nil {
-				sub.Ob("PANIC", "checker", 0, false, fmt.Sprintf("analysis panicked: %v", r))
-			}
-		}()
-		props.Registry[id](sub)
-	}()
-	sub.CloseMinimums()
+	sub := props.RunViews(id, tier, 0, prog, verif, true)
 	findings, _ := core.LoadFindings(verif)
 	known := map[string]bool{}
 	for _, f := range findings {
@@ -56,28 +44,41 @@ func runOn(id, tier string, prog *core.Program, verif string) (map[string]string
 // file is written) and the rules must report a violation that the unchanged
 // tree does not have — a rule that cannot fire proves nothing.
 func thorough(c *core.Ctx, id, repo, verif string, baseline map[string]string) {
-	// (a) second build configuration
+	// (a) further build configurations: js/wasm where there is a wasm entry point;
+	// linux/386 (32-bit int) for the arithmetic and parsing properties
+	type cfg struct {
+		name string
+		env  []string
+	}
+	var cfgs []cfg
 	switch id {
-	case "C09", "C14", "C15":
-		prog, err := core.Load(core.LoadOpts{Repo: repo, Env: []string{"GOOS=js", "GOARCH=wasm"}})
+	case "C09", "C15":
+		cfgs = []cfg{{"js/wasm", []string{"GOOS=js", "GOARCH=wasm"}}}
+	case "C14":
+		cfgs = []cfg{{"js/wasm", []string{"GOOS=js", "GOARCH=wasm"}}, {"linux/386", []string{"GOOS=linux", "GOARCH=386"}}}
+	case "C05", "C06", "C01":
+		cfgs = []cfg{{"linux/386", []string{"GOOS=linux", "GOARCH=386"}}}
+	}
+	for _, cf := range cfgs {
+		prog, err := core.Load(core.LoadOpts{Repo: repo, Env: cf.env})
 		if err != nil {
-			c.Ob("CONFIG", "js/wasm#loads", 0, false, "the js/wasm build configuration does not load: "+err.Error())
-		} else {
-			fails, n := runOn(id, "thorough", prog, verif)
-			c.Config("js/wasm")
-			c.Extra("js_wasm_obligations", n)
-			var ks []string
-			for k := range fails {
-				ks = append(ks, k)
-			}
-			sort.Strings(ks)
-			for _, k := range ks {
-				if _, inBase := baseline[k]; !inBase {
-					c.ObAt("CONFIG", "js/wasm:"+k, "-", false, "under GOOS=js GOARCH=wasm: "+fails[k])
-				}
-			}
-			c.Ob("CONFIG", "js/wasm#rules-run", 0, n > 0, "no obligations under js/wasm")
+			c.Ob("CONFIG", cf.name+"#loads", 0, false, "the "+cf.name+" build configuration does not load: "+err.Error())
+			continue
 		}
+		fails, n := runOn(id, "thorough", prog, verif)
+		c.Config(cf.name)
+		c.Extra(strings.ReplaceAll(cf.name, "/", "_")+"_obligations", n)
+		var ks []string
+		for k := range fails {
+			ks = append(ks, k)
+		}
+		sort.Strings(ks)
+		for _, k := range ks {
+			if _, inBase := baseline[k]; !inBase {
+				c.ObAt("CONFIG", cf.name+":"+k, "-", false, "under "+strings.Join(cf.env, " ")+": "+fails[k])
+			}
+		}
+		c.Ob("CONFIG", cf.name+"#rules-run", 0, n > 0, "no obligations under "+cf.name)
 	}
 	// (b) positive controls
 	dirs, _ := filepath.Glob(filepath.Join(verif, "seeded", "*"))
